@@ -128,6 +128,55 @@ def run_draws(case, v):
     n_contract = _STATE["evals"] - n_contract0
     v.check(n_contract >= len(kinds), "contract on Interaction.__init__ evaluated for every draw", evaluated=n_contract, draws=len(kinds))
     v.events += n_contract
+    # ---- recorded randomness: the uniform numbers the real methods draw are recorded at numpy's boundary, and the published inverse
+    # sampling formulas (typed here, independently) are applied to exactly those numbers -- decides what statistics cannot resolve
+    drawn = []
+    orig_rand = np.random.rand
+
+    def spy(*a_):
+        u_ = orig_rand(*a_)
+        drawn.append(u_)
+        return u_
+    n_exact = 0
+    for i in range(min(N, 1500)):
+        pid = IDS[i % 6]
+        kind_ = ["cc", "nc"][(i // 6) % 2]
+        try:
+            p = pp.Particle(pid, (0, 0, -100), (0, 0, 1), E, interaction_model=model, interaction_type=kind_)
+        except PostBroken:
+            continue
+        it = p.interaction
+        np.random.rand = spy
+        try:
+            del drawn[:]
+            y_ = float(it.choose_inelasticity())
+            u_y = [float(x) for x in drawn]
+            del drawn[:]
+            k_ = it.choose_interaction()
+            u_k = [float(x) for x in drawn]
+        finally:
+            np.random.rand = orig_rand
+        anti = pid.endswith("bar")
+        if case["model"] == "GQRS":
+            ok_n = len(u_y) == 1 and len(u_k) == 1
+            want_y = (-np.log(1 / np.e + u_y[0] * (1 - 1 / np.e))) ** 2.5 if ok_n else None
+            want_nc = (not (u_k[0] < 0.6865254)) if ok_n else None
+        else:
+            ok_n = len(u_y) == 2 and len(u_k) == 1
+            if ok_n:
+                low = u_y[0] < 0.128 * np.sin(-0.197 * (eps - 21.8))
+                a0, a1, a2, a3 = (0.0, 0.0941, 4.72, 0.456) if low else ({("cc", False): (-0.008, 0.26, 3.0, 1.7), ("cc", True): (-0.0026, 0.085, 4.1, 1.7)}.get((kind_, anti), (-0.005, 0.23, 3.0, 1.7)))
+                c1, c2 = a0 - a1 * np.exp(-(eps - a2) / a3), 2.55 - 0.0949 * eps
+                r_ = u_y[1]
+                want_y = (c1 + (r_ * (1e-3 - c1) ** (1 - 1 / c2) + (1 - r_) * (0 - c1) ** (1 - 1 / c2)) ** (c2 / (c2 - 1))) if low else ((1 - c1) ** r_ / (1e-3 - c1) ** (r_ - 1) + c1)
+                want_nc = u_k[0] < 0.252162 + 0.0256 * np.log(eps - 1.76)
+        if not v.check(ok_n, "inelasticity and interaction type are drawn by inverse sampling from the expected number of uniform numbers", drawn_for_y=len(u_y), drawn_for_kind=len(u_k), model=case["model"]):
+            break
+        n_exact += 1
+        v.close("inelasticity == the published inverse-sampling formula applied to the recorded uniform numbers", abs(y_ - want_y) / max(abs(want_y), 1e-12), 1e-9,
+                model=case["model"], pid=pid, kind=kind_, log10E=eps, uniforms=u_y, y=y_, expected=float(want_y))
+        v.check((k_.name == "neutral_current") == bool(want_nc), "interaction type == the published CC/NC fraction applied to the recorded uniform number", model=case["model"], log10E=eps, uniform=u_k[0], chosen=k_.name)
+    v.events += n_exact
     # CC/NC split against the published fraction
     if case["forced"] is None and kinds:
         ncf = float(np.mean(kinds))
